@@ -36,6 +36,9 @@ type TxnProg struct {
 	Mode string `json:"mode"` // update | view (closure API) | rw | ro (manual Begin)
 	Ops  []Op   `json:"ops"`
 	End  string `json:"end"` // commit | discard | error (closure returns an error) | commit-discard (Commit then Discard) | after (use after finish)
+	// Panic (with End "error"): the Update closure does not return the error but panics with it, and the
+	// client recovers around db.Update: one more way of abandoning a transaction.
+	Panic bool `json:"panic,omitempty"`
 }
 
 // Action is one step of a client program.
@@ -219,6 +222,7 @@ type SeqParams struct {
 	MinTxns, MaxTxns int
 	Restarts         bool // clean Close/Open at drawn positions
 	Abandon          bool // discarded / failed transactions
+	PanicAbandon     bool // C08: half of the failing Update closures panic instead of returning the error
 	Misuse           bool // misuse operations
 	Small            bool // bias to small thresholds
 }
@@ -280,6 +284,7 @@ func GenSeq(seed uint64, prop string, p SeqParams) *Case {
 		if p.Abandon && update && r.Intn(4) == 0 {
 			if t.Mode == "update" {
 				t.End = "error"
+				t.Panic = p.PanicAbandon && t.ID%2 == 0 // no PRNG draw: the cases of the other properties stay as they were
 			} else {
 				t.End = "discard"
 			}
